@@ -1134,6 +1134,35 @@ def _run_element_pspace(cfg, recipe, rep):
             wrong = _pspace_values(S, as_lists=True)
             wrong[0] = M.values((first.size + 1,), first.dtype).tolist()
             case('first part of wrong shape', wrong, 'raise', sig='wrong-part-shape')
+        # near-miss shape of ONE part (singleton axes elsewhere / other number of leading ones):
+        # a refusal, or that part equals np.asarray(part input) exactly (never rearranged)
+        for k, fac in enumerate(S.spaces):
+            if isinstance(fac, odl.ProductSpace) or fac.dtype.kind not in 'biufc':
+                continue
+            fsh = tuple(fac.shape)
+            for wsh in M.near_miss_shapes(fsh):
+                wv = M.values(wsh, fac.dtype, salt=5)
+                forms = [('ndarray', wv), ('nested list', wv.tolist())]
+                if wsh != ():
+                    forms.append(('element of the sibling space',
+                                  odl.tensor_space(wsh, dtype=fac.dtype).element(wv.copy())))
+                for flab, part in forms:
+                    inp = _pspace_values(S)
+                    inp[k] = part
+                    lab = 'part %d as %s of near-miss shape %s' % (k, flab, wsh)
+                    rep.evals += 1
+                    st, res = _try(lambda: S.element(inp))
+                    rep.sigs.add('el:ps:near-miss:%s' % st)
+                    if st == 'exc':
+                        continue
+                    prom = np.array(wv, ndmin=len(fsh))
+                    st2, got = _try(lambda: _arr(res[k]))
+                    if st2 == 'exc' or got.shape != prom.shape or not np.array_equal(got, prom):
+                        rep.bad(site, 'input_rearranged',
+                                '%s: accepted; the part has shape %s, np.asarray(input) has shape '
+                                '%s (%s after ndmin promotion), the factor has shape %s'
+                                % (lab, getattr(got, 'shape', None), wsh, prom.shape, fsh))
+            break       # first tensor-like factor only
     return rep
 
 
